@@ -94,6 +94,7 @@ func main() {
 	explore.Main("C16", func(r *explore.Run) {
 		D := r.Pick(3, 4)
 		ds := []drivers.Driver{drivers.ReaderLoop(7), drivers.ReaderLoop(1), drivers.ReaderDiscard(1), drivers.NextReaderLoop(), drivers.ReadMessageLoop(),
+			drivers.WithSkipHeaderCheck(drivers.ReaderLoop(7)), drivers.WithSkipHeaderCheck(drivers.ReaderDiscard(1)),
 			drivers.ReadDataLoop("Generic"), drivers.ReadDataLoop("Text")}
 		r.Part("E1-read-side-every-cut", func(t *explore.T) {
 			all := collect(D)
